@@ -55,7 +55,7 @@ macro_rules! ge_lookup {
 #[kani::stub(std::fmt::format, fmt_stub2)]
 fn $name() {
     let cb = 16u32;
-    let info = mk_info(cb, 4, 1u64 << 40, 9, Some((9, 1024)), Some((9, 1024)), false, false, false);
+    let info = mk_info(cb, 4, 1u64 << 40, 9, Some((9, 1024)), Some((10, 2048)), false, false, false);
     let mut env = KEnv::new(info);
     let cs = 1u64 << cb;
     let base: usize = $base;
